@@ -16,9 +16,9 @@ package types
 //@   invariant #1 start: rangeindex == 0 - 1 ==> maxNumber <= 0 - 179769313486231570814527423731704356798070567525844996598917476803157260780028538760589558632766878171540458953514382464234321326889464182768467546703537516986049910576551282076245490090389328944075868508455133942304583236903222948165808559332123348274797826204144723168738177180919299881250404026184124858368
 //@   invariant #1 upper: forall j:Int :: 0 <= j && j <= rangeindex ==> NUM(data[j]) <= maxNumber
 //@   invariant #1 attained: rangeindex >= 0 ==> (exists j:Int :: 0 <= j && j <= rangeindex && maxNumber == NUM(data[j]))
-//@   ensures formatted: s == ufstr("format_float", maxNumber, 102, 8, 64)
-//@   ensures upper:     forall j:Int :: 0 <= j && j < len(data) ==> NUM(data[j]) <= maxNumber
-//@   ensures attained:  exists j:Int :: 0 <= j && j < len(data) && maxNumber == NUM(data[j])
+// (stated on the result alone: it is the formatted value of one of the numbers, and none is larger)
+//@   ensures maximum: exists j:Int :: 0 <= j && j < len(data) && s == ufstr("format_float", NUM(data[j]), 102, 8, 64)
+//@                       && (forall i:Int :: 0 <= i && i < len(data) ==> NUM(data[i]) <= NUM(data[j]))
 //@ end
 
 //@ func Min(data)
@@ -30,9 +30,8 @@ package types
 //@   invariant #1 start: rangeindex == 0 - 1 ==> minNum == 179769313486231570814527423731704356798070567525844996598917476803157260780028538760589558632766878171540458953514382464234321326889464182768467546703537516986049910576551282076245490090389328944075868508455133942304583236903222948165808559332123348274797826204144723168738177180919299881250404026184124858368
 //@   invariant #1 lower: forall j:Int :: 0 <= j && j <= rangeindex ==> NUM(data[j]) >= minNum
 //@   invariant #1 attained: rangeindex >= 0 ==> (exists j:Int :: 0 <= j && j <= rangeindex && minNum == NUM(data[j]))
-//@   ensures formatted: s == ufstr("format_float", minNum, 102, 8, 64)
-//@   ensures lower:     forall j:Int :: 0 <= j && j < len(data) ==> NUM(data[j]) >= minNum
-//@   ensures attained:  exists j:Int :: 0 <= j && j < len(data) && minNum == NUM(data[j])
+//@   ensures minimum: exists j:Int :: 0 <= j && j < len(data) && s == ufstr("format_float", NUM(data[j]), 102, 8, 64)
+//@                       && (forall i:Int :: 0 <= i && i < len(data) ==> NUM(data[i]) >= NUM(data[j]))
 //@ end
 
 // left-fold sum of the first n numbers (definitional axioms)
